@@ -49,7 +49,7 @@ def txt_expr(rng, d):
         j = rng.random()
         if j < 0.4:
             return rng.choice(TXT_COLS)
-        return G.str_lit(rng.choice(["x", "it's", 'say "hi"', "a b", "%Y", "é", "tab\t", "nl\n", "b\\s", "", "q'\"q", "{x}"] + ([] if CLEAN[0] else ["'q\"", "\"q'"])))
+        return G.str_lit(rng.choice(["x", "it's", 'say "hi"', "a b", "%Y", "é", "tab\t", "nl\n", "b\\s", "", "q'\"q", "{x}"] + ["'q\"", "\"q'"]))
     if k < 0.6:
         return "(text.%s (%s))" % (rng.choice(["lower", "upper", "trim", "ltrim"]), txt_expr(rng, d - 1))
     if k < 0.8:
@@ -178,12 +178,12 @@ CLEAN = [True]   # set by the caller: avoid (True) or include (False) the constr
 
 
 def ty(rng):
-    return rng.choice(G.TYPES + ([] if CLEAN[0] else G.HOSTILE_TYPES))
+    return rng.choice(G.TYPES + G.HOSTILE_TYPES)
 
 
 def stmt_name(rng, quoted=0.06):
-    if rng.random() < quoted and not CLEAN[0]:
-        return "`" + rng.choice(["a b", "let", "my-name", "true", "x$y"]) + "`"
+    if rng.random() < quoted:
+        return "`" + rng.choice(["a b", "let", "my-name", "true", "x$y"] + ([] if CLEAN[0] else ["*"])) + "`"
     return rng.choice(["x", "y", "my_var", "f1", "é", "rel", "long_variable_name_number_one"])
 
 
@@ -227,7 +227,7 @@ def statement(rng, d, depth=0):
     if k < 0.50:
         return pre + "type %s = %s" % (stmt_name(rng, 0.03), ty(rng))
     if k < 0.58:
-        return pre + "import %s%s" % (rng.choice(["", "", "al = ", "`my al` = ", "`let` = "] + ([] if CLEAN[0] else ["`import` = ", "`a$b` = "])), rng.choice(["a.b", "std.math", "x", "`a b`.c", "m.`type`"]))
+        return pre + "import %s%s" % (rng.choice(["", "", "al = ", "`my al` = ", "`let` = ", "`import` = ", "`a$b` = "] + ([] if CLEAN[0] else ["`*` = "])), rng.choice(["a.b", "std.math", "x", "`a b`.c", "m.`type`"]))
     if k < 0.68 and depth < 2:
         inner = [statement(rng, max(d - 1, 1), depth + 1) for _ in range(rng.randint(0, 3))]
         inner = [s for s in inner if not s.lstrip("#!@ \n").startswith("from")]
